@@ -62,9 +62,82 @@ Cases ==
 \* decoding into a destination that is a window of a larger buffer (a []byte with spare capacity, as a caller that
 \* reuses an arena hands it in): nothing outside the window may change, whatever the length of the input
 Window == {[fam |-> "codec", kind |-> "window", codec |-> "plain", shape |-> sh, expect |-> "clean"] : sh \in {"short", "fit", "long", "empty"}}
+
+(***************************************************************************)
+(* Capability matrix, continued: what a codec does with the memory it is   *)
+(* given.                                                                  *)
+(*                                                                         *)
+(* (a) Every codec COPIES out of its input.  The framework hands a codec a *)
+(* view of a pooled receive buffer that is reused for the next message of  *)
+(* any session of the process, so a decoded value that still points into   *)
+(* the input is rewritten later: decode(encode(v)) must stay equal to v    *)
+(* after every byte of the input buffer has been overwritten.  AliasShapes *)
+(* lists, per codec and within the matrix above, the shapes that hold      *)
+(* reference data (strings, byte slices, slices / arrays / maps of strings,*)
+(* structs of these); "pblist:*" is a protobuf message with repeated       *)
+(* fields (the messages shipped in the repository have none), "map:*" are  *)
+(* map[string]string / map[string][]string.                                *)
+(***************************************************************************)
+Codecs == {"json", "xml", "form", "plain", "protobuf", "thrift"}
+RefScalar == {"string:ascii", "string:special", "string:utf8"}
+RefSeq    == {"[]string:1", "[]string:3"}
+RefArr    == {"[2]string"}
+RefStruct == {"{string:ascii;[]string:2;int32:neg}", "{[]string:3;string:utf8;[2]string}"}
+PbList    == {"pblist:empty", "pblist:one", "pblist:some"}
+Wrap(S)   == {"{" \o x \o "}" : x \in S}
+AliasShapes(cd) ==
+  CASE cd = "plain"    -> RefScalar \cup {"bytes:rand", "named:ascii", "named:utf8", "namedbytes:rand"}
+    [] cd = "json"     -> RefScalar \cup {"bytes:rand"} \cup RefSeq \cup RefArr \cup RefStruct \cup {"{bytes:rand;string:ascii}"} \cup Nested
+                          \cup {"map:string", "map:strings"}
+    [] cd = "xml"      -> Wrap(RefScalar \cup RefSeq) \cup {"{string:ascii;[]string:2;int32:neg}"}
+    [] cd = "form"     -> Wrap(RefScalar \cup RefSeq \cup RefArr) \cup RefStruct \cup {"urlvalues", "map:strings"}
+    [] cd = "protobuf" -> {"pb:full", "pb:big"} \cup PbList
+    [] cd = "thrift"   -> {"thriftdoc:small", "thriftdoc:big"}
+AL(cd, sh) == [fam |-> "codec", kind |-> "alias", codec |-> cd, shape |-> sh, expect |-> "roundtrip"]
+Alias == UNION {{AL(cd, s) : s \in AliasShapes(cd)} : cd \in Codecs}
+
+(***************************************************************************)
+(* (b) "resets destination": decoding encode(v) into a destination that    *)
+(* was used before (a caller that polls with ONE reply object) yields v,   *)
+(* whatever the destination held.  Measured on the unchanged tree          *)
+(* (2026-09-24, driver kind "reuse" run for all six codecs):               *)
+(*   protobuf  TRUE   proto.Unmarshal resets the message first (a proto3   *)
+(*                    encoding omits zero fields and repeated fields are   *)
+(*                    appended to, so without the reset the result depends *)
+(*                    on the past)                                         *)
+(*   plain     TRUE   every destination kind is assigned as a whole        *)
+(*                    (a byte slice is resized to the input)               *)
+(*   thrift    TRUE   the codec itself does not reset, but a thrift struct *)
+(*                    writes every field and its Read assigns every field  *)
+(*                    it reads (lists are rebuilt), which holds for the    *)
+(*                    struct types used here                               *)
+(*   json      FALSE  encoding/json merges by Go convention: map entries   *)
+(*                    and fields absent from the input keep what they held *)
+(*   xml       FALSE  encoding/xml APPENDS to a slice that is not empty    *)
+(*   form      FALSE  fields whose key is absent keep their value, and an  *)
+(*                    empty slice is encoded as an absent key              *)
+(* For the merging codecs the property statement ("decoding the encoding   *)
+(* of a value yields an equal value") is read for a fresh destination only;*)
+(* nothing is demanded of them here.  prev = what the destination received *)
+(* before: "full" every field non-zero and every sequence longer than in v,*)
+(* "same" another value of the same shape class.                           *)
+(***************************************************************************)
+ResetsDest == [json |-> FALSE, xml |-> FALSE, form |-> FALSE, plain |-> TRUE, protobuf |-> TRUE, thrift |-> TRUE]
+Prev == {"full", "same"}
+ReuseShapes(cd) ==
+  CASE cd = "plain"    -> {x \in Scalars : ScalarOK(x)} \cup {"named:ascii", "named:utf8", "namedbytes:rand"}
+    [] cd = "protobuf" -> {"pb:empty", "pb:full", "pb:big"} \cup PbList
+    [] cd = "thrift"   -> {"thriftempty", "thriftdoc:small", "thriftdoc:big"}
+    [] OTHER -> {}
+RU(cd, sh, pv) == [fam |-> "codec", kind |-> "reuse", codec |-> cd, shape |-> sh, prev |-> pv, expect |-> "roundtrip"]
+Reuse == UNION {{RU(cd, s, pv) : s \in ReuseShapes(cd), pv \in Prev} : cd \in {x \in Codecs : ResetsDest[x]}}
+\* the added shapes also take part in the plain round trip / interleaving classes
+Added == {RT("protobuf", s) : s \in PbList} \cup {IL("protobuf", "pblist:some")}
+         \cup {RT("json", s) : s \in {"map:string", "map:strings"}} \cup {RT("form", "map:strings")}
+
 VARIABLES c, done
 vars == <<c, done>>
-Init == c \in Cases \cup Window /\ done = FALSE
+Init == c \in Cases \cup Window \cup Alias \cup Reuse \cup Added /\ done = FALSE
 Run == ~done /\ done' = TRUE /\ UNCHANGED c
 Spec == Init /\ [][Run]_vars
 OracleSane == (c.kind \in {"garbage", "window"}) <=> (c.expect = "clean")
